@@ -68,8 +68,13 @@ static int mu_try_acquire_after_timeout_or_cancel (nsync_mu *mu, lock_type *l_ty
 	int success = 0;
 	unsigned spin_attempts = 0;
 	uint32_t old_word = ATM_LOAD (&mu->word);
-	/* Spin until we can acquire the spinlock and a writer lock on *mu. */
-	while ((old_word&(MU_WZERO_TO_ACQUIRE|MU_SPINLOCK)) != 0 ||
+	/* Spin until we can acquire the spinlock and a writer lock on *mu.
+	   Like any thread that has already waited, this thread is stopped only
+	   by the constraints of mutual exclusion, not by MU_LONG_WAIT:  it may
+	   be the very thread that was woken to take *mu next, in which case the
+	   long waiter that set the bit will not run until this thread has
+	   acquired and released *mu.  */
+	while ((old_word&(MU_ANY_LOCK|MU_SPINLOCK)) != 0 ||
 	       !ATM_CAS_ACQ (&mu->word, old_word,
 			     (old_word+MU_WADD_TO_ACQUIRE+MU_SPINLOCK) &
 			     ~MU_WCLEAR_ON_ACQUIRE)) {
